@@ -280,13 +280,52 @@ func runTotalCase(c *totalCase, light bool) totalObs {
 		if t == nil {
 			continue
 		}
-		add(measure("unmarshal:"+tn, func() int {
+		add(twice(measure("unmarshal:"+tn, func() int {
 			pv := reflect.New(t)
 			ion.Unmarshal(in, pv.Interface())
-			return 1
-		}))
+			// and into a target that already holds something: slices of capacity exactly 1, a map with an entry,
+			// allocated pointers (a decoder that grows or reuses what it finds must cope with any starting state)
+			pf := reflect.New(t)
+			prefill(pf.Elem(), 0)
+			ion.Unmarshal(in, pf.Interface())
+			return 2
+		})))
 	}
 	return o
+}
+
+func twice(r totalRes) totalRes { r.N = 2; return r }
+
+// prefill gives a target value a non-zero starting state.
+func prefill(v reflect.Value, depth int) {
+	if depth > 3 || !v.CanSet() {
+		return
+	}
+	switch v.Kind() {
+	case reflect.Slice:
+		sl := reflect.MakeSlice(v.Type(), 1, 1)
+		v.Set(sl)
+	case reflect.Map:
+		if v.Type().Key().Kind() == reflect.String {
+			m := reflect.MakeMap(v.Type())
+			m.SetMapIndex(reflect.ValueOf("old").Convert(v.Type().Key()), reflect.Zero(v.Type().Elem()))
+			v.Set(m)
+		}
+	case reflect.Ptr:
+		if v.Type().Elem().Kind() != reflect.Struct || depth < 2 {
+			p := reflect.New(v.Type().Elem())
+			prefill(p.Elem(), depth+1)
+			v.Set(p)
+		}
+	case reflect.Struct:
+		for i := 0; i < v.NumField(); i++ {
+			prefill(v.Field(i), depth+1)
+		}
+	case reflect.Interface:
+		if v.NumMethod() == 0 {
+			v.Set(reflect.ValueOf([]interface{}{1}))
+		}
+	}
 }
 
 func totalWatchdog(deadline time.Duration, out *bufio.Writer, cur *atomic.Int64, started *atomic.Int64) {
